@@ -501,7 +501,42 @@ ALSO3 = {
     "C20": "Round 3: a handle stored in a context-manager class of lasio's own is accepted when __exit__ closes exactly that attribute "
            "(flag-guarded when it may hold the caller's object) and every instantiation is the subject of a with-statement.",
 }
+ALSO4 = {
+    "C01": "Round 4: ORD.TABLE / ORD.KEY-NORM (the NULL line of a 1.2 file keeps its value:descr order for every spelling the table "
+           "lists), SEC.TYPE (every ~A... title is routed to the data reader), WR.NO-STATE (no mutable default argument or module state "
+           "keeps a format from one write to the next), WR.OPTIONS-READONLY (options read by nested helpers are not re-bound in a loop).",
+    "C02": "Round 4: DATA.FAST-TOKENS (genfromtxt gets no delimiter/usecols/missing-value/invalid_raise option), NULL.TABLE.",
+    "C03": "Round 4: PK.REBUILD / PK.LIST-RESTORE (the deep copy of ~Version that is written keeps the section's instance state), "
+           "ORD order source (the reader's value/description decision is the table lookup and nothing else).",
+    "C04": "Round 4: HDR.POST (strip_brackets removes a *matching* pair only).",
+    "C05": "Round 4: SEC.EVERY-SECTION (no section found by the scan is skipped on account of its line numbers), SEC.TITLE-PRED "
+           "agreement (scanner and header loop both decide titles by startswith('~')), SEC.STEER over eight spellings per letter, "
+           "SEC.ROUTE over LAS-3 style titles under versions 1.2/2.0/3.0, SEC.SCAN whole-line reads.",
+    "C06": "Round 4: SEC.STEER over eight spellings per letter (underscore / digit / trailing text after the letter).",
+    "C07": "Round 4: SEC.CASE, SEC.STEER (WRAP/DLM are picked up for every spelling of ~V), DATA.ENGINE-SELECT (WRAP YES forces the "
+           "reference engine).",
+    "C08": "Round 4: HDR.READ-NO-REWRITE (read() never rewrites a field of a parsed item), SEC.ROUTE (LAS-3 dispatch priority).",
+    "C09": "Round 4: DATA.ENGINE-SELECT.",
+    "C10": "Round 4: PU.COOKIE (section addresses are unmodified tell() cookies), PU.CHANNEL decision table (content-or-filename "
+           "test folded over probe strings, two-line texts without final newline included).",
+    "C11": "Round 4: PK.LIST-RESTORE state order, HDR.NUMLIT, HDR.POST, WR.NO-STATE.",
+    "C12": "Round 4: WR.OPTIONS-READONLY, ORD order source, WR.NO-STATE.",
+    "C13": "Round 4: SI.LIST-PRIMITIVES (only SectionItems methods use list.* primitives on a section).",
+    "C14": "Round 4: LF.ROUTE positions (insert/delete hand the position to the list unchanged) and truncate (decided by the option "
+           "alone), SI.SUFFIX-ALGO (the numbering loop skips nothing), SI.READ-PURE.",
+    "C15": "Round 4: SI.READ-PURE (item / slice / attribute access, membership, keys ... reach no renaming hook).",
+    "C16": "Round 4: WR.NO-STATE, WR.FRAME replace scope (set_item renumbers only the replaced name's group).",
+    "C17": "Round 4: PK.LIST-RESTORE enumeration (`for item in self`, never by key) and state order, PK.STATE no stale state merged, "
+           "PK.INDEPENDENT no shared __dict__.",
+    "C18": "Round 4: XLSX per-sample NaN flag freshness (CFG with exception edges), first-curve participation in unit detection, "
+           "EX.JSON-NAN sanitiser recognition.",
+    "C19": "Round 4: SEC.SCAN (readline() without a size: a long junk line stays one line), data-dependent recursion in the closure "
+           "of the header loop (RecursionError).",
+    "C20": "Round 4: ExitStack registration (`stack.callback(h.close)`, `stack.enter_context(open(...))`) counts as release on every exit.",
+}
 for _pid, _txt in ALSO.items():
+    PROPS[_pid]["explanation"] += " " + _txt
+for _pid, _txt in ALSO4.items():
     PROPS[_pid]["explanation"] += " " + _txt
 for _pid, _txt in ALSO3.items():
     PROPS[_pid]["explanation"] += " " + _txt
